@@ -23,6 +23,16 @@ NUM_CONV = {"float", "int", "round", "float16", "float32", "float64", "half", "s
 
 
 # =========================================================================== writer model
+def floor(ctx, label, n, at_least, site):
+    """The anchored function exists but fewer sites than expected were recognised: the construct changed shape.
+    Reported as a finding (never a silent pass, never an analysis error)."""
+    rule = label.split()[0]
+    what = label[len(rule):].strip()
+    return ctx.check(n >= at_least, rule, site, f"{what}: construct not found ({n} site(s) recognised, at least {at_least} expected)",
+                     "the code this rule protects is no longer in a form the rule recognises; the reader/writer agreement it "
+                     "establishes cannot be confirmed", note=f"{what}: {n} site(s)")
+
+
 class WBlock:
     """One `write` of a row of `mesh.<kind>` inside an exporter."""
 
@@ -844,8 +854,8 @@ def run_medit(ctx, repo):
     wsite, rsite = ctx.site(mod, wfn), ctx.site(mod, rfn)
     if repo.has_func(mod, "parse_field"):
         ctx.site(mod, repo.func(mod, "parse_field"))
-    ctx.require_count("C04-E1 medit written blocks", len(wblocks), 7)
-    ctx.require_count("C04-E1 medit parsed blocks", len(rblocks), 6)
+    floor(ctx, "C04-E1 medit written blocks", len(wblocks), 4, ctx.site(mod, wfn))
+    floor(ctx, "C04-E1 medit parsed blocks", len(rblocks), 4, ctx.site(mod, rfn))
     rkey = keyed(rblocks)
     for wb in wblocks:
         site = ctx.site(mod, wfn, wb.write)
@@ -896,12 +906,12 @@ def run_medit(ctx, repo):
                       "the exporter writes the number of rows on the line after the keyword")
     coordinate_order(ctx, fmt, mod, wfn, wblocks)
     nb = b1_writer_offsets(ctx, fmt, mod, wfn, prov, b) + b1_reader_offsets(ctx, fmt, mod, rblocks)
-    ctx.require_count("C04-B1 medit index sites", nb, 11)
+    floor(ctx, "C04-B1 medit index sites", nb, 3, ctx.site(mod, wfn))
     nl = l1_float_format(ctx, fmt, mod, wfn, prov, b) + l1_reader_floats(ctx, fmt, mod, rblocks)
-    ctx.require_count("C04-L1 medit coordinate sites", nl, 4)
+    floor(ctx, "C04-L1 medit coordinate sites", nl, 2, ctx.site(mod, wfn))
     nv = v1_writer_order(ctx, fmt, mod, wfn, prov, b)
     nv += v1_reader_order(ctx, fmt, mod, [f for q, f in repo.module(mod).funcs.items() if "<locals>" not in q], rblocks, wfn)
-    ctx.require_count("C04-V1 medit rows", nv, 4)
+    floor(ctx, "C04-V1 medit rows", nv, 2, ctx.site(mod, wfn))
 
 
 # =========================================================================== obj
@@ -1061,8 +1071,8 @@ def run_obj(ctx, repo):
               "import_obj does not parse the file with parse_obj_data", "")
     prov, b, wblocks = writer_blocks(fmt, wfn)
     rblocks = reader_blocks(repo, fmt, mod, rfn)
-    ctx.require_count("C04-E1 obj written blocks", len(wblocks), 4)
-    ctx.require_count("C04-E1 obj parsed blocks", len(rblocks), 3)
+    floor(ctx, "C04-E1 obj written blocks", len(wblocks), 3, ctx.site(mod, wfn))
+    floor(ctx, "C04-E1 obj parsed blocks", len(rblocks), 3, ctx.site(mod, rfn))
     for wb in wblocks:
         if wb.kind == "faces" and wb.unknown:
             err = obj_face_writer(wb)
@@ -1083,19 +1093,19 @@ def run_obj(ctx, repo):
                 if isinstance(x, ast.Constant) and isinstance(x.value, str):
                     rtags[x.value] = n_
     wt = written_tags(wfn, b)
-    ctx.require_count("C04-E1 obj tags", len(wt), 5)
+    floor(ctx, "C04-E1 obj tags", len(wt), 3, ctx.site(mod, wfn))
     for t, c in sorted(wt.items()):
         ctx.check(t in rtags, "C04-E1", ctx.site(mod, wfn, c), f"obj: lines tagged `{t}` are written but not recognised by the importer",
                   "the data on those lines is lost on reload", note=f"obj: tag `{t}` known to the importer")
     tagged_rules(ctx, fmt, mod, wfn, rfn, wblocks, rblocks)
     coordinate_order(ctx, fmt, mod, wfn, wblocks)
     nb = b1_writer_offsets(ctx, fmt, mod, wfn, prov, b) + b1_reader_offsets(ctx, fmt, mod, rblocks)
-    ctx.require_count("C04-B1 obj index sites", nb, 7)
+    floor(ctx, "C04-B1 obj index sites", nb, 2, ctx.site(mod, wfn))
     nl = l1_float_format(ctx, fmt, mod, wfn, prov, b) + l1_reader_floats(ctx, fmt, mod, rblocks)
-    ctx.require_count("C04-L1 obj coordinate sites", nl, 2)
+    floor(ctx, "C04-L1 obj coordinate sites", nl, 2, ctx.site(mod, wfn))
     nv = v1_writer_order(ctx, fmt, mod, wfn, prov, b)
     nv += v1_reader_order(ctx, fmt, mod, [f for q, f in repo.module(mod).funcs.items() if "<locals>" not in q], rblocks, wfn)
-    ctx.require_count("C04-V1 obj rows", nv, 2)
+    floor(ctx, "C04-V1 obj rows", nv, 1, ctx.site(mod, wfn))
 
 
 # =========================================================================== off / tet  (rows tagged with their length)
@@ -1226,8 +1236,8 @@ def run_off(ctx, repo):
               "import_off does not parse the file with parse_off_data", "")
     prov, b, wblocks = writer_blocks(fmt, wfn)
     rblocks = reader_blocks(repo, fmt, mod, rfn)
-    ctx.require_count("C04-E1 off written blocks", len(wblocks), 2)
-    ctx.require_count("C04-E1 off parsed blocks", len(rblocks), 2)
+    floor(ctx, "C04-E1 off written blocks", len(wblocks), 2, ctx.site(mod, wfn))
+    floor(ctx, "C04-E1 off parsed blocks", len(rblocks), 2, ctx.site(mod, rfn))
     # magic line
     magic_w = [t for t in written_tags(wfn, b)]
     magic_r = [x.value for x in au.walk(rfn) if isinstance(x, ast.Constant) and isinstance(x.value, str) and x.value.isupper()]
@@ -1238,12 +1248,12 @@ def run_off(ctx, repo):
     len_tagged_rules(ctx, fmt, mod, wfn, rfn, wblocks, rblocks, {"faces": 3, "cells": 4})
     h1_flat_header(ctx, fmt, mod, wfn, rfn, prov, b, wblocks)
     nb = b1_writer_offsets(ctx, fmt, mod, wfn, prov, b) + b1_reader_offsets(ctx, fmt, mod, rblocks)
-    ctx.require_count("C04-B1 off index sites", nb, 2)
+    floor(ctx, "C04-B1 off index sites", nb, 1, ctx.site(mod, wfn))
     nl = l1_float_format(ctx, fmt, mod, wfn, prov, b) + l1_reader_floats(ctx, fmt, mod, rblocks)
-    ctx.require_count("C04-L1 off coordinate sites", nl, 2)
+    floor(ctx, "C04-L1 off coordinate sites", nl, 2, ctx.site(mod, wfn))
     nv = v1_writer_order(ctx, fmt, mod, wfn, prov, b)
     nv += v1_reader_order(ctx, fmt, mod, [f for q, f in repo.module(mod).funcs.items() if "<locals>" not in q], rblocks, wfn)
-    ctx.require_count("C04-V1 off rows", nv, 1)
+    floor(ctx, "C04-V1 off rows", nv, 1, ctx.site(mod, wfn))
 
 
 def run_tet(ctx, repo):
@@ -1254,8 +1264,8 @@ def run_tet(ctx, repo):
               "import_tet does not parse the file with parse_tet_data", "")
     prov, b, wblocks = writer_blocks(fmt, wfn)
     rblocks = reader_blocks(repo, fmt, mod, rfn)
-    ctx.require_count("C04-E1 tet written blocks", len(wblocks), 2)
-    ctx.require_count("C04-E1 tet parsed blocks", len(rblocks), 2)
+    floor(ctx, "C04-E1 tet written blocks", len(wblocks), 2, ctx.site(mod, wfn))
+    floor(ctx, "C04-E1 tet parsed blocks", len(rblocks), 2, ctx.site(mod, rfn))
     tagged_rules(ctx, fmt, mod, wfn, rfn, wblocks, rblocks)
     len_tagged_rules(ctx, fmt, mod, wfn, rfn, wblocks, rblocks, {"cells": 4, "faces": 3})
     h1_flat_header(ctx, fmt, mod, wfn, rfn, prov, b, wblocks)
@@ -1265,12 +1275,12 @@ def run_tet(ctx, repo):
                   "the importer parses the first token of each header line as the count",
                   note=f"tet: count of {kind} leads its header line")
     nb = b1_writer_offsets(ctx, fmt, mod, wfn, prov, b) + b1_reader_offsets(ctx, fmt, mod, rblocks)
-    ctx.require_count("C04-B1 tet index sites", nb, 2)
+    floor(ctx, "C04-B1 tet index sites", nb, 1, ctx.site(mod, wfn))
     nl = l1_float_format(ctx, fmt, mod, wfn, prov, b) + l1_reader_floats(ctx, fmt, mod, rblocks)
-    ctx.require_count("C04-L1 tet coordinate sites", nl, 2)
+    floor(ctx, "C04-L1 tet coordinate sites", nl, 2, ctx.site(mod, wfn))
     nv = v1_writer_order(ctx, fmt, mod, wfn, prov, b)
     nv += v1_reader_order(ctx, fmt, mod, [f for q, f in repo.module(mod).funcs.items() if "<locals>" not in q], rblocks, wfn)
-    ctx.require_count("C04-V1 tet rows", nv, 1)
+    floor(ctx, "C04-V1 tet rows", nv, 1, ctx.site(mod, wfn))
 
 
 def run_xyz(ctx, repo):
@@ -1278,8 +1288,8 @@ def run_xyz(ctx, repo):
     wfn, rfn = repo.func(mod, "export_xyz"), repo.func(mod, "import_xyz")
     prov, b, wblocks = writer_blocks(fmt, wfn)
     rblocks = reader_blocks(repo, fmt, mod, rfn)
-    ctx.require_count("C04-E1 xyz written blocks", len(wblocks), 2)
-    ctx.require_count("C04-E1 xyz parsed blocks", len(rblocks), 1)
+    floor(ctx, "C04-E1 xyz written blocks", len(wblocks), 1, ctx.site(mod, wfn))
+    floor(ctx, "C04-E1 xyz parsed blocks", len(rblocks), 1, ctx.site(mod, rfn))
     # normals ride after the coordinates: 3 + 3 tokens, read back as [3:6]
     rb_ = sym.Bindings(rfn)
     stage = [(c, rowspec(c.args[0], rb_, c)) for c in au.calls(rfn)
@@ -1295,13 +1305,15 @@ def run_xyz(ctx, repo):
                       note=f"xyz: normals = tokens [{wb.fields}:{wb.fields + extra}] on both sides")
             wb.trailing = extra
     for wb in wblocks:
+        if not rblocks:
+            break
         rb = rblocks[0]
         ctx.check(reader_arity(rb) == wb.fields and rb.spec.skip == 0, "C04-E1", ctx.site(mod, rfn, rb.node),
                   f"xyz: {wb.fields} coordinates are written per point, the importer keeps {reader_arity(rb)} after skipping {rb.spec.skip}",
                   "", note="xyz: 3 coordinates per point on both sides")
     coordinate_order(ctx, fmt, mod, wfn, wblocks)
     nl = l1_float_format(ctx, fmt, mod, wfn, prov, b) + l1_reader_floats(ctx, fmt, mod, rblocks)
-    ctx.require_count("C04-L1 xyz coordinate sites", nl, 7)
+    floor(ctx, "C04-L1 xyz coordinate sites", nl, 2, ctx.site(mod, wfn))
 
 
 # =========================================================================== geogram
@@ -1558,7 +1570,7 @@ def g1_header_layout(ctx, repo, wfn, afn, fields, start, role_field):
                  f"writer roles {sorted(roles or [])}, reader roles {sorted(role_field)}")
         return roles, None
     calls = [c for c in au.calls(wfn) if au.call_tail(c) == "export_attribute"]
-    ctx.require_count("C04-G1 export_attribute call sites", len(calls), 7)
+    floor(ctx, "C04-G1 export_attribute call sites", len(calls), 1, asite)
     aps = au.params(afn)
     lit_pos = {i for c in calls for i, a in enumerate(c.args) if isinstance(a, ast.Constant) and isinstance(a.value, str)}
     cont_param = aps[min(lit_pos)] if len(lit_pos) == 1 else None
@@ -1627,7 +1639,7 @@ def g1_header_layout(ctx, repo, wfn, afn, fields, start, role_field):
                           f"geogram: a Bool attribute value may be written as `{au.src(lf.expr)}` (True/False), the importer "
                           f"parses bool(int(token))", "int('True') raises: a mesh with a Bool attribute cannot be reloaded",
                           note="geogram: Bool values written through int()")
-    ctx.require_count("C04-A1 attribute value sites", nb, 2)
+    floor(ctx, "C04-A1 attribute value sites", nb, 2, asite)
     return roles, cont_param
 
 
@@ -1746,7 +1758,7 @@ def geogram_chunks(ctx, repo, wfn, prov, b, special, start, tfold, fold_containe
             ctx.check(dense, "C04-G1", ctx.site(mod, wfn, lp),
                       f"geogram: payload loop of chunk {name} does not run over all elements",
                       "one group of values per element, in element order")
-    ctx.require_count("C04-E1 geogram connectivity chunks", n_chunks, 5)
+    floor(ctx, "C04-E1 geogram connectivity chunks", n_chunks, 4, ctx.site(GEO, wfn))
     return names_written, atts
 
 
@@ -1873,7 +1885,7 @@ def _ptr_payload_ok(lp, b, prov, kind):
 def geogram_arity_tables(ctx, repo, wfn, rfn, wblocks, names_written, tables, prov, b):
     mod = GEO
     rsite = ctx.site(mod, rfn)
-    ctx.require_count("C04-E1 geogram arity tables", len(tables), 2)
+    floor(ctx, "C04-E1 geogram arity tables", len(tables), 2, rsite)
     for kind, (names, default, node, table, extra, cont) in sorted(tables.items()):
         ctx.check(not extra and len(names) <= 1, "C04-E1", rsite,
                   f"geogram: the size table of {kind} is also filled while reading chunk {', '.join(extra or names[1:])}",
@@ -1999,10 +2011,10 @@ def run_geogram(ctx, repo):
             return None
     cfn, fields, start, special, member_field, role_field = geogram_reader_tables(ctx, repo, rfn)
     ctx.site(mod, cfn)
-    ctx.require_count("C04-E1 geogram importer connectivity branches", len(special), 5)
-    ctx.require_count("C04-E1 geogram container table", len(member_field), 7)
-    ctx.require_count("C04-E1 geogram exporter row blocks", len(wblocks), 3)
-    ctx.require_count("C04-E1 geogram importer row blocks", len(rblocks), 4)
+    floor(ctx, "C04-E1 geogram importer connectivity branches", len(special), 4, ctx.site(mod, rfn))
+    floor(ctx, "C04-E1 geogram container table", len(member_field), 4, ctx.site(mod, wfn))
+    floor(ctx, "C04-E1 geogram exporter row blocks", len(wblocks), 3, ctx.site(mod, wfn))
+    floor(ctx, "C04-E1 geogram importer row blocks", len(rblocks), 4, ctx.site(mod, rfn))
     roles, cont_param = g1_header_layout(ctx, repo, wfn, afn, fields, start, role_field)
     g1_import_stride(ctx, repo, iafn, role_field)
     tables = arity_tables(repo, rfn)
@@ -2013,14 +2025,14 @@ def run_geogram(ctx, repo):
     geogram_counts(ctx, repo, wfn, rfn, b, prov.mesh, special, member_field, atts)
     geogram_arity_tables(ctx, repo, wfn, rfn, wblocks, names_written, tables, prov, b)
     geogram_rows(ctx, repo, rfn, cfn, rblocks, fields)
-    ctx.require_count("C04-X1 geogram exporter preconditions", geogram_precondition(ctx, repo, wfn), 1)
+    floor(ctx, "C04-X1 geogram exporter preconditions", geogram_precondition(ctx, repo, wfn), 1, ctx.site(mod, wfn))
     nb = b1_writer_offsets(ctx, fmt, mod, wfn, prov, b)
-    ctx.require_count("C04-B1 geogram index sites", nb, 2)
+    floor(ctx, "C04-B1 geogram index sites", nb, 2, ctx.site(mod, wfn))
     nl = l1_float_format(ctx, fmt, mod, wfn, prov, b)
-    ctx.require_count("C04-L1 geogram coordinate sites", nl, 1)
+    floor(ctx, "C04-L1 geogram coordinate sites", nl, 1, ctx.site(mod, wfn))
     nv = v1_writer_order(ctx, fmt, mod, wfn, prov, b)
     nv += v1_reader_order(ctx, fmt, mod, [], rblocks, wfn)
-    ctx.require_count("C04-V1 geogram rows", nv, 2)
+    floor(ctx, "C04-V1 geogram rows", nv, 1, ctx.site(mod, wfn))
 
 
 def geogram_precondition(ctx, repo, wfn):
@@ -2057,11 +2069,248 @@ def geogram_precondition(ctx, repo, wfn):
     return len(need)
 
 
+# =========================================================================== C04-C1 emission conditions
+# element kinds each format can express (frozen from the format definitions)
+VOCAB = {"obj": ("vertices", "edges", "faces"), "medit": ("vertices", "edges", "faces", "cells"),
+         "geogram": ("vertices", "edges", "faces", "cells"), "off": ("vertices", "faces"), "tet": ("vertices", "cells"),
+         "xyz": ("vertices",)}
+MESHDATA = "mesh.mesh_data"
+
+
+def regeneration_model(ctx, repo):
+    """What `RawMeshData.prepare()` rebuilds on load: {'edges': switch name, 'faces': switch name} (config attributes
+    guarding the completion calls) and the name of the attribute flagging the edges declared before completion."""
+    fn = repo.func(MESHDATA, "RawMeshData.prepare")
+    site = ctx.site(MESHDATA, fn)
+    sw = {}
+    for c in au.calls(fn):
+        t = au.call_tail(c)
+        for kind, callee in (("edges", "_complete_edges_from_faces"), ("faces", "_complete_faces_from_cells")):
+            if t == callee:
+                gs = [(g, pol) for g, pol in au.guards(c) if "_prepared" not in au.src(g)]
+                if len(gs) == 1 and gs[0][1] and isinstance(gs[0][0], ast.Attribute) and isinstance(gs[0][0].value, ast.Name):
+                    sw[kind] = gs[0][0].attr
+    flag = None
+    if repo.has_func(MESHDATA, "RawMeshData._complete_edges_from_faces"):
+        cf = repo.func(MESHDATA, "RawMeshData._complete_edges_from_faces")
+        for c in au.calls(cf):
+            if au.call_tail(c) == "create_attribute" and c.args and isinstance(c.args[0], ast.Constant) \
+                    and isinstance(c.func.value, ast.Attribute) and c.func.value.attr == "edges":
+                flag = c.args[0].value
+        # completion is skipped when there is no face: the flag exists only on meshes of dimension >= 2
+        early = any(isinstance(st, ast.If) and "faces.empty()" in au.src(st.test) and any(isinstance(x, ast.Return) for x in st.body)
+                    for st in cf.body)
+    else:
+        early = False
+    ok = set(sw) == {"edges", "faces"} and flag is not None and early
+    ctx.check(ok, "C04-C1", site,
+              "prepare(): completion of edges from faces / faces from cells under one config switch each, declared edges flagged, "
+              "not found", f"switches {sw}, flag attribute {flag}, no-face early exit {early}: the emission conditions of the "
+              f"exporters cannot be related to what a load regenerates",
+              note=f"load regenerates edges under config.{sw.get('edges')}, faces under config.{sw.get('faces')}; declared edges "
+                   f"flagged '{flag}'")
+    return (sw, flag) if ok else None
+
+
+class _State:
+    def __init__(self, D, CE, CF, kind):
+        self.D, self.CE, self.CF, self.kind = D, CE, CF, kind
+        self.H = D >= 2 and CE           # the flag attribute exists iff edges were completed from faces
+
+    def nonempty(self, k):
+        if k == self.kind:
+            return True
+        if k == "vertices":
+            return True
+        if k == "edges":
+            return True if self.D == 1 else (False if self.D == 0 else None)
+        if k == "faces":
+            return True if self.D == 2 else (False if self.D < 2 else (True if self.CF else None))
+        if k == "cells":
+            return self.D == 3
+        return None
+
+    def __str__(self):
+        return f"dimensionality {self.D}, complete_edges_from_faces={self.CE}, complete_faces_from_cells={self.CF}"
+
+
+def _and3(vals):
+    if any(v is False for v in vals):
+        return False
+    return None if any(v is None for v in vals) else True
+
+
+def _or3(vals):
+    if any(v is True for v in vals):
+        return True
+    return None if any(v is None for v in vals) else False
+
+
+def eval_emission(test, st, prov, b, model, at, depth=0):
+    """Three-valued value (True / False / None = does not depend on the modelled state) of an exporter condition in
+    mesh state `st`."""
+    sw, flag = model
+    mesh = prov.mesh
+    if depth > 6:
+        return None
+    if isinstance(test, ast.Constant):
+        return bool(test.value)
+    if isinstance(test, ast.BoolOp):
+        vals = [eval_emission(v, st, prov, b, model, at, depth + 1) for v in test.values]
+        return _and3(vals) if isinstance(test.op, ast.And) else _or3(vals)
+    if isinstance(test, ast.UnaryOp) and isinstance(test.op, ast.Not):
+        v = eval_emission(test.operand, st, prov, b, model, at, depth + 1)
+        return None if v is None else (not v)
+    if isinstance(test, ast.Name):
+        d = b.reaching(test.id, at)
+        return eval_emission(d, st, prov, b, model, getattr(b, "_last_def_stmt", at), depth + 1) if d is not None else None
+    if isinstance(test, ast.Attribute) and isinstance(test.value, ast.Name) and test.value.id != mesh:
+        # <config module>.<switch>
+        if test.attr == sw["edges"]:
+            return st.CE
+        if test.attr == sw["faces"]:
+            return st.CF
+        if test.attr.startswith("export"):
+            return True                  # explicit export switch: the requirement is about the exporting configuration
+        return None
+    if isinstance(test, ast.Call):
+        t = au.call_tail(test)
+        if t == "hasattr" and len(test.args) == 2 and isinstance(test.args[0], ast.Name) and test.args[0].id == mesh \
+                and isinstance(test.args[1], ast.Constant) and test.args[1].value in cc.KINDS:
+            return True
+        if t == "empty" and isinstance(test.func, ast.Attribute) and prov.container_kind(test.func.value) in cc.KINDS:
+            v = st.nonempty(prov.container_kind(test.func.value))
+            return None if v is None else (not v)
+        if t == "has_attribute" and test.args and isinstance(test.args[0], ast.Constant) \
+                and isinstance(test.func, ast.Attribute) and prov.container_kind(test.func.value) == "edges":
+            return st.H if test.args[0].value == flag else None
+        return None
+    if isinstance(test, ast.Compare):
+        def val(x):
+            if isinstance(x, ast.Attribute) and x.attr == "dimensionality" and isinstance(x.value, ast.Name) and x.value.id == mesh:
+                return st.D
+            if isinstance(x, ast.Call) and isinstance(x.func, ast.Name) and x.func.id == "len" and len(x.args) == 1 \
+                    and prov.container_kind(x.args[0]) in cc.KINDS:
+                v = st.nonempty(prov.container_kind(x.args[0]))
+                return None if v is None else ("len", v)
+            if isinstance(x, ast.Name):
+                d = b.reaching(x.id, at)
+                return val(d) if d is not None else None
+            c = au.const(x)
+            return c if isinstance(c, (int, float)) and not isinstance(c, bool) else None
+        vals = [val(test.left)] + [val(c) for c in test.comparators]
+        if any(v is None for v in vals):
+            return None
+        out = True
+        for (l, r), op in zip(zip(vals, vals[1:]), test.ops):
+            if isinstance(l, tuple) or isinstance(r, tuple):
+                # len(container) against 0 / 1
+                if isinstance(l, tuple) and r in (0, 1) and isinstance(op, (ast.Gt, ast.NotEq, ast.GtE, ast.Eq, ast.Lt, ast.LtE)):
+                    ne = l[1]
+                    res = {ast.Gt: ne if r == 0 else None, ast.NotEq: ne if r == 0 else None, ast.GtE: ne if r == 1 else (True if r == 0 else None),
+                           ast.Eq: (not ne) if r == 0 else None, ast.Lt: (not ne) if r == 1 else None, ast.LtE: (not ne) if r == 0 else None}[type(op)]
+                    if res is None:
+                        return None
+                    out = out and res
+                    continue
+                return None
+            f = {ast.Eq: lambda a_, b_: a_ == b_, ast.NotEq: lambda a_, b_: a_ != b_, ast.Lt: lambda a_, b_: a_ < b_,
+                 ast.LtE: lambda a_, b_: a_ <= b_, ast.Gt: lambda a_, b_: a_ > b_, ast.GtE: lambda a_, b_: a_ >= b_}.get(type(op))
+            if f is None:
+                return None
+            out = out and f(l, r)
+        return out
+    return None
+
+
+def required_level(kind, st):
+    """What a save must put in the file for a load (under the same configuration) to give the elements back:
+    'all' rows of the container, the 'declared' edges only (the others are face sides, regenerated), or None."""
+    if kind == "vertices":
+        return "all"
+    if kind == "edges":
+        if st.D == 0:
+            return None
+        if st.D == 1 or not st.CE:
+            return "all"
+        return "declared"
+    if kind == "faces":
+        if st.D < 2:
+            return None
+        return "all" if (st.D == 2 or not st.CF) else None
+    if kind == "cells":
+        return "all" if st.D == 3 else None
+    return None
+
+
+def c1_emission(ctx, repo, fmt, model):
+    mod = IOMOD[fmt]
+    wfn = repo.func(mod, EXPORT[fmt])
+    site = ctx.site(mod, wfn)
+    prov, b, wblocks = writer_blocks(fmt, wfn)
+    sw, flag = model
+    n = 0
+    for kind in VOCAB[fmt]:
+        blocks = [wb for wb in wblocks if wb.kind == kind]
+        if fmt == "geogram" and kind == "vertices":
+            # coordinates are written from `for i in range(len(mesh.vertices))`: the guards of that loop
+            blocks = [WBlock(kind=kind, loop=lp, via="loop", other_guards=[], write=lp) for lp in au.stmts(wfn.body)
+                      if isinstance(lp, ast.For) and any(isinstance(x, ast.Subscript) and prov.container_kind(x.value) == "vertices"
+                                                          for x in au.walk(lp))][:1]
+        n += 1
+        if not blocks:
+            ctx.fail("C04-C1", site, f"{fmt}: no loop writes the {kind} of the mesh",
+                     f"the {fmt} format can express {kind}; a saved mesh reloads without them")
+            continue
+        bad = None
+        for D in (0, 1, 2, 3):
+            for CE in (True, False):
+                for CF in (True, False):
+                    st = _State(D, CE, CF, kind)
+                    need = required_level(kind, st)
+                    if need is None or bad is not None:
+                        continue
+                    got = None
+                    for wb in blocks:
+                        runs = _and3([(lambda v, pol: None if v is None else (v == pol))(
+                            eval_emission(t, st, prov, b, model, wb.loop), pol) for t, pol in au.guards(wb.loop)] or [True])
+                        if runs is False:
+                            continue
+                        level = "all"
+                        if wb.via == "index" or wb.other_guards:
+                            it = cc.resolve(b, wb.loop.iter, at=wb.loop)
+                            declared = isinstance(it, ast.Call) and au.call_tail(it) == "get_attribute" and it.args \
+                                and isinstance(it.args[0], ast.Constant) and it.args[0].value == flag and not wb.other_guards
+                            level = "declared" if declared else "some"
+                        if level == "all" or (level == "declared" and need == "declared"):
+                            got = level
+                            break
+                    if got is None:
+                        bad = st
+        ctx.check(bad is None, "C04-C1", site,
+                  f"{fmt}: the conditions under which {kind} are written do not cover every mesh whose {kind} a load cannot regenerate",
+                  f"with {bad}: a load regenerates edges only under config.{sw['edges']} (as face sides) and faces only under "
+                  f"config.{sw['faces']} (as cell sides), so {'every edge' if bad and required_level(kind, bad) == 'all' else 'the declared ' + kind} "
+                  f"must be in the file, but no block writing them runs in that state: they vanish on reload",
+                  note=f"{fmt}: {kind} written in every state where a load would not rebuild them")
+    return n
+
+
 def run_formats(ctx):
+    from ..core import AnalysisError
     repo = ctx.repo
-    run_medit(ctx, repo)
-    run_obj(ctx, repo)
-    run_off(ctx, repo)
-    run_tet(ctx, repo)
-    run_xyz(ctx, repo)
-    run_geogram(ctx, repo)
+    for fmt, fn in (("medit", run_medit), ("obj", run_obj), ("off", run_off), ("tet", run_tet), ("xyz", run_xyz),
+                    ("geogram", run_geogram)):
+        try:
+            fn(ctx, repo)
+        except AnalysisError:
+            raise
+        except (IndexError, KeyError, AttributeError, TypeError, ValueError) as ex:
+            # the anchored functions exist (repo.func succeeded) but the extraction met a shape it does not model
+            ctx.fail("C04-E1", ctx.site(IOMOD[fmt], repo.func(IOMOD[fmt], EXPORT[fmt])),
+                     f"{fmt}: codec is no longer in a form whose reader/writer tables can be extracted",
+                     f"extraction stopped with {type(ex).__name__}: {ex}")
+    model = regeneration_model(ctx, repo)
+    if model is not None:
+        for fmt in ("obj", "medit", "geogram", "off", "tet", "xyz"):
+            c1_emission(ctx, repo, fmt, model)
